@@ -655,6 +655,11 @@ pub struct Outcome {
     /// the run exercised a known, reported defect of the pinned tree (see REPORT.md):
     /// mismatches of such a run are counted, not reported
     pub known: Option<&'static str>,
+    /// which capacity a StackFull error came from: "values" / "calls" / "pieces"
+    pub full_cause: Option<&'static str>,
+    /// backward branches taken / returns from non-empty callees (coverage only)
+    pub backward: u64,
+    pub returns: u64,
 }
 
 pub fn derr_kinds(e: DErr) -> Vec<&'static str> {
@@ -684,6 +689,10 @@ struct Machine<'a> {
     tainted: Option<&'static str>,
     peak: usize,
     known: Option<&'static str>,
+    /// which capacity a StackFull came from: "values" / "calls" / "pieces"
+    full_cause: Option<&'static str>,
+    backward: u64,
+    returns: u64,
 }
 
 type R<T> = Result<T, MErr>;
@@ -730,6 +739,7 @@ impl<'a> Machine<'a> {
     fn push(&mut self, v: Val) -> R<()> {
         if let Some(c) = self.cfg.caps {
             if self.stack.len() >= c.stack {
+                self.full_cause = Some("values");
                 return Err(err(&[E_FULL]));
             }
         }
@@ -766,6 +776,7 @@ impl<'a> Machine<'a> {
     fn push_piece(&mut self, p: MPiece) -> R<()> {
         if let Some(c) = self.cfg.caps {
             if self.pieces.len() >= c.result {
+                self.full_cause = Some("pieces");
                 return Err(err(&[E_FULL]));
             }
         }
@@ -776,7 +787,10 @@ impl<'a> Machine<'a> {
     fn at_end(&mut self) -> bool {
         while self.cur.pc >= self.codes[self.cur.code].len() {
             match self.frames.pop() {
-                Some(f) => self.cur = f,
+                Some(f) => {
+                    self.cur = f;
+                    self.returns += 1;
+                }
                 None => return true,
             }
         }
@@ -787,6 +801,9 @@ impl<'a> Machine<'a> {
         let target = self.cur.pc as i128 + rel as i128;
         if target < 0 || target > len {
             return Err(err(&["BadBranchTarget"]));
+        }
+        if (target as usize) < self.cur.pc {
+            self.backward += 1;
         }
         self.cur.pc = target as usize;
         Ok(())
@@ -1035,8 +1052,11 @@ pub fn evaluate(code: &[u8], cfg: &Config, pool: &[Vec<u8>], ans: &mut dyn FnMut
         tainted: None,
         peak: 0,
         known: None,
+        full_cause: None,
+        backward: 0,
+        returns: 0,
     };
-    let mut out = Outcome { requests: vec![], end: End::Budget, iterations: 0, decodes: 0, tainted: None, executed: vec![], peak_stack: 0, known: None };
+    let mut out = Outcome { requests: vec![], end: End::Budget, iterations: 0, decodes: 0, tainted: None, executed: vec![], peak_stack: 0, known: None, full_cause: None, backward: 0, returns: 0 };
     let end = run(&mut m, &mut out, pool, ans);
     out.end = match end {
         Ok(e) => e,
@@ -1044,6 +1064,9 @@ pub fn evaluate(code: &[u8], cfg: &Config, pool: &[Vec<u8>], ans: &mut dyn FnMut
     };
     out.tainted = m.tainted;
     out.known = m.known;
+    out.full_cause = m.full_cause;
+    out.backward = m.backward;
+    out.returns = m.returns;
     out.peak_stack = m.peak;
     out
 }
@@ -1383,6 +1406,7 @@ fn run<'a>(m: &mut Machine<'a>, out: &mut Outcome, pool: &'a [Vec<u8>], ans: &mu
                         if !e.is_empty() {
                             if let Some(c) = m.cfg.caps {
                                 if m.frames.len() >= c.expr {
+                                    m.full_cause = Some("calls");
                                     return Err(err(&[E_FULL]));
                                 }
                             }
